@@ -158,6 +158,14 @@ func init() {
 			*keep = append(*keep, Retained{Orig: v4, Clone: strings.Clone(v4)}, Retained{Orig: v31, Clone: strings.Clone(v31)}, Retained{Orig: v30, Clone: strings.Clone(v30)})
 			return v4 + " " + v31 + " " + v30
 		}},
+		Body{"wrong-header twins of vectors parsed by other bodies", func(keep *[]Retained) string {
+			_, e1 := gocvss31.ParseVector("CVSS:3.0/AV:N/AC:L/PR:N/UI:R/S:C/C:H/I:L/A:N/E:F/MAV:A")
+			_, e2 := gocvss30.ParseVector("CVSS:3.1/AV:L/AC:H/PR:L/UI:R/S:C/C:N/I:H/A:L/RC:U/MS:U")
+			_, e3 := gocvss40.ParseVector("CVSS:3.1/AV:N/AC:L/AT:N/PR:N/UI:N/VC:H/VI:L/VA:N/SC:N/SI:N/SA:N/E:P/MSI:S/U:Amber")
+			_, e4 := gocvss31.ParseVector("AV:N/AC:L/PR:N/UI:R/S:C/C:H/I:L/A:N/E:F/MAV:A")
+			_, e5 := gocvss20.ParseVector("CVSS:2.0/" + full14)
+			return fmt.Sprint(e1, "|", e2, "|", e3, "|", e4, "|", e5)
+		}},
 		Body{"v3.0/v4/v2 unknown-abbreviation errors", func(keep *[]Retained) string {
 			_, e1 := gocvss30.ParseVector("CVSS:3.0/QUX:N")
 			o4 := shared40
